@@ -36,14 +36,14 @@ class C01(core.Check):
     def correspondence(self, res, boost):
         jesse_env.setup()
         rng = random.Random(self.seed * 7919 + 1)
-        sessions = [engcorr.gen_session(rng) for _ in range(self.budget(80, 500, boost))]
+        sessions = [engcorr.gen_session(rng, watch=rng.random() < 0.15) for _ in range(self.budget(80, 500, boost))]
         engcorr.compare_sessions(res, sessions)
 
     def oracle(self, res, boost):
         jesse_env.setup()
         rng = random.Random(self.seed * 104729 + 5)
         for _ in range(self.budget(100, 800, boost)):
-            sess = engcorr.gen_session(rng, max_n=120, tight=rng.random() < 0.4, vol=rng.choice([4, 8]))
+            sess = engcorr.gen_session(rng, max_n=120, tight=rng.random() < 0.4, vol=rng.choice([4, 8]), watch=rng.random() < 0.25)
             if rng.random() < 0.35:
                 sess['warmup'] = 720        # half a day of injected warm-up candles (a multiple of every timeframe used)
                 res.count('pairs-with-warm-up')
@@ -63,6 +63,12 @@ class C01(core.Check):
             res.seen((sess['candle_seed'], cut, sess['fast']), fills > 0)
             res.count('pairs:' + ('fast' if sess['fast'] else 'step'))
             res.count('prefix-events', len(a))
+            if getattr(tr1, 'future_candles', None):
+                res.fail(**{'class': 'look-ahead/future-candle-in-store/' + ('fast' if sess['fast'] else 'step'),
+                            'input': {'session': {kk: sess[kk] for kk in ('kind', 'fee', 'leverage', 'isolated', 'fast', 'routes',
+                                                                         'droutes', 'n', 'scripts', 'candle_seed')}},
+                            'observed': tr1.future_candles[0], 'expected': 'every stored candle starts before the current time',
+                            'params': {'simulator': 'fast' if sess['fast'] else 'step'}})
             if a != b:
                 k = next((i for i, (x, y) in enumerate(zip(a, b)) if x != y), min(len(a), len(b)))
                 res.fail(**{'class': 'look-ahead/' + ('fast' if sess['fast'] else 'step'),
